@@ -29,11 +29,11 @@ theorem BasePair.symm {a b} (h : BasePair a b) : BasePair b a := by
 
 inductive MRel : Macro → Macro → Prop
   | refl (m : Macro) : MRel m m
-  | tail (ps : List Name) (pre : List Dir) (T1 T2 : List Dir × List CEv) :
+  | tail (ps : List Param) (pre : List Dir) (T1 T2 : List Dir × List CEv) :
       (∀ d ∈ pre, d.ctlDef = true) → BasePair T1 T2 → MRel ⟨ps, pre ++ T1.1, T1.2⟩ ⟨ps, pre ++ T2.1, T2.2⟩
-  | nest (ps : List Name) (pre stay : List Dir) (body : List CEv) :
+  | nest (ps : List Param) (pre stay : List Dir) (body : List CEv) :
       (∀ d ∈ pre, d.ctlDef = true) → MRel ⟨ps, pre ++ stay, body⟩ ⟨ps, [], nestSubs pre stay body⟩
-  | unnest (ps : List Name) (pre stay : List Dir) (body : List CEv) :
+  | unnest (ps : List Param) (pre stay : List Dir) (body : List CEv) :
       (∀ d ∈ pre, d.ctlDef = true) → MRel ⟨ps, [], nestSubs pre stay body⟩ ⟨ps, pre ++ stay, body⟩
 
 theorem MRel.symm {a b : Macro} (h : MRel a b) : MRel b a := by
@@ -136,7 +136,7 @@ theorem IOk.ev_pure {e : Expr} {st : St} {v : Val} {out : List Event}
 theorem IOk.ev_call {f args} {st s1 : St} {o : List Event} {fv vs m scope}
     (hfv : eval st.look f = .ok fv)
     (hvs : evalArgs st.look args = .ok vs) (hm : getMacro st fv = .ok m)
-    (hsc : bindParams m.params vs = .ok scope) (h : IOk (.apply m.dirs m.body) (st.push scope) o s1) :
+    (hsc : bindParams st.look m.params vs = .ok scope) (h : IOk (.apply m.dirs m.body) (st.push scope) o s1) :
     IOk (.ev (.xexpr (.call f args))) st o s1.pop := by
   obtain ⟨k, h⟩ := h
   exact ⟨k + 1, by simp [run, hfv, hvs, hm, hsc, h, bind, Except.bind, mapSt]⟩
@@ -225,7 +225,7 @@ theorem param_step (n : Nat) (hP : ∀ k, k < n → PProp k) (hN : ∀ k, k < n 
         obtain ⟨fv, hfv, vs, hvs, mc, hmc, scope, hsc, s2, h2, rfl⟩ := h
         obtain ⟨mc', hmc', hrel⟩ := getMacro_rel hr hmc
         have hpush := hr.push scope
-        have hsc' : bindParams mc'.params vs = .ok scope := by rw [← hrel.params]; exact hsc
+        have hsc' : bindParams st'.look mc'.params vs = .ok scope := by rw [← hrel.params, hlook]; exact hsc
         have key : ∃ s2', IOk (.apply mc'.dirs mc'.body) (st'.push scope) o s2' ∧ StRel s2 s2' := by
           cases hrel with
           | refl => exact hP k hk _ _ _ _ _ h2 hpush
